@@ -580,7 +580,7 @@ class LifeTx(Tx):
             self.check_unique_def(c, cls, f.attr)
             key = self.method_key(cls, f.attr, getter=False)
             if key is None:
-                self.err(c, f"{cls}.{f.attr} is not translated")
+                self.err(c, f"{cls}.{f.attr} is not a translated method (a property called?)")
             return key, None, list(c.args), c.keywords
         # a method of an observable, from the pool
         if self.STATE_TY == "LW" and not (isinstance(f.value, ast.Name) and f.value.id in env
